@@ -56,6 +56,8 @@ pub mod rust_log_ref_finder
     {
         lazy_static! {
             static ref RUST_COMMENT_PATTERN: Regex = Regex::new(r"\/\/(.+)|\/\*(.+)\*\/").unwrap();
+            static ref REF_VALUE_PATTERN: Regex =
+                Regex::new(r"^([0-9]+)(?:\s|/\*(?s:.*?)\*/|//[^\n]*(?:\n|$))*$").unwrap();
         }
 
         let mut result = Vec::new();
@@ -244,11 +246,13 @@ pub mod rust_log_ref_finder
                                         ));
 
                                         ref_kind = LogRefKind::StructuredPreExisting;
-                                        reference = match span.as_str().parse::<u32>()
-                                        {
-                                            Err(_) => None,
-                                            Ok(val) => Some(val),
-                                        };
+                                        /*
+                                         * The value runs up to its separator, so it may
+                                         * be followed by white space or comments.
+                                         */
+                                        reference = REF_VALUE_PATTERN
+                                            .captures(span.as_str())
+                                            .and_then(|value| value[1].parse::<u32>().ok());
 
                                         break;
                                     },
